@@ -379,8 +379,9 @@ Qed.
 (* ---------- cumulative sums, shifts, scalings, column sums ---------- *)
 Lemma zlen_cumsum_int : forall d a, zlen (cumsum_int a d) = zlen d.
 Proof.
-  unfold zlen. induction d as [|x r IH]; intros a; simpl; [reflexivity|].
-  specialize (IH (a + to_int x)). lia.
+  unfold zlen. induction d as [|x r IH]; intros a; [reflexivity|].
+  change (cumsum_int a (x :: r)) with (VInt (a + to_int x) :: cumsum_int (a + to_int x) r).
+  specialize (IH (a + to_int x)). simpl length. lia.
 Qed.
 
 Lemma nthZ_cumsum_int : forall d a k, 0 <= k < zlen d ->
@@ -388,7 +389,9 @@ Lemma nthZ_cumsum_int : forall d a k, 0 <= k < zlen d ->
 Proof.
   induction d as [|x r IH]; intros a k H.
   - unfold zlen in H; simpl in H; lia.
-  - rewrite zlen_cons in H. simpl cumsum_int. destruct (Z.eq_dec k 0) as [->|N].
+  - rewrite zlen_cons in H.
+    change (cumsum_int a (x :: r)) with (VInt (a + to_int x) :: cumsum_int (a + to_int x) r).
+    destruct (Z.eq_dec k 0) as [->|N].
     + rewrite nthZ_cons_0. f_equal. unfold psum. rewrite pyslice_0 by (rewrite zlen_cons; pose proof (zlen_nonneg r); lia).
       change (Z.to_nat (0 + 1)) with 1%nat. simpl firstn. rewrite sum_int_cons, sum_int_nil. lia.
     + rewrite nthZ_cons_S by lia. rewrite IH by lia. f_equal.
